@@ -555,5 +555,119 @@ func ReplayC19File(path string, quiet bool) int {
 	return 0
 }
 
-func specialC14(args []string) int          { fmt.Fprintln(os.Stderr, "C14 not built"); return 2 }
-func replayC14(path string, quiet bool) int { return 2 }
+// specialC14: the supplementary gc-stress probe (NOT deterministic; see cmd/gcstress and DESIGN.md).
+// It runs after the deterministic C14 simulation and adds its result to the same evidence file.
+func specialC14(args []string) int {
+	fs := flag.NewFlagSet("C14", flag.ExitOnError)
+	seed := fs.Uint64("seed", 1, "")
+	seconds := fs.Int("seconds", 6, "")
+	procs := fs.Int("procs", 4, "")
+	evidence := fs.String("evidence", "", "")
+	bin := fs.String("bin", "/verif/bin/gcstress", "")
+	outdir := fs.String("out", "/verif/replays", "")
+	fs.Parse(args)
+	type outcome struct {
+		Seed   uint64 `json:"seed"`
+		Result string `json:"result"`
+		Detail string `json:"detail,omitempty"`
+	}
+	res := make([]outcome, *procs)
+	var wg sync.WaitGroup
+	for i := 0; i < *procs; i++ {
+		wg.Add(1)
+		go func(i int) {
+			defer wg.Done()
+			sd := Mix(*seed, uint64(1000+i))
+			res[i] = outcome{Seed: sd}
+			cmd := exec.Command(*bin, "-seed", fmt.Sprint(sd), "-seconds", fmt.Sprint(*seconds))
+			cmd.Env = append(os.Environ(), "GOMAXPROCS=4")
+			out, err := cmd.CombinedOutput()
+			text := string(out)
+			switch {
+			case strings.Contains(text, "found pointer to free object") || strings.Contains(text, "marked free object") || strings.Contains(text, "CORRUPTION"):
+				res[i].Result = "corruption"
+				for _, l := range strings.Split(text, "\n") {
+					if strings.Contains(l, "fatal error") || strings.Contains(l, "CORRUPTION") || strings.Contains(l, "marked free object") {
+						res[i].Detail = l
+						break
+					}
+				}
+			case err != nil:
+				res[i].Result = "error"
+				res[i].Detail = tail(text, 400)
+			default:
+				res[i].Result = "clean"
+				res[i].Detail = strings.TrimSpace(text)
+			}
+		}(i)
+	}
+	wg.Wait()
+	exit := 0
+	bad := 0
+	for _, o := range res {
+		if o.Result == "corruption" {
+			bad++
+		} else if o.Result == "error" && exit == 0 {
+			fmt.Fprintln(os.Stderr, "gcstress trouble:", o.Detail)
+			exit = 2
+		}
+	}
+	if bad > 0 {
+		os.MkdirAll(*outdir, 0o755)
+		path := filepath.Join(*outdir, fmt.Sprintf("C14-gcstress-%d.json", *seed))
+		f := map[string]interface{}{"property": "C14", "build": "special-C14-gcstress", "seed": *seed, "seconds": *seconds, "procs": *procs, "outcomes": res,
+			"violation": map[string]interface{}{"class": "gc-integrity", "msg": "objects referenced only by components were freed or corrupted while the collector ran concurrently with moves"}}
+		b, _ := json.MarshalIndent(f, "", " ")
+		os.WriteFile(path, b, 0o644)
+		fmt.Printf("violation: class=gc-integrity (uncontrolled GC stress) %d of %d processes: %s\n", bad, *procs, res[0].Detail)
+		fmt.Printf("VIOLATION property=C14 replay=%s\n", path)
+		exit = 1
+	}
+	if *evidence != "" {
+		if b, err := os.ReadFile(*evidence); err == nil {
+			var ev map[string]interface{}
+			if json.Unmarshal(b, &ev) == nil {
+				if cov, ok := ev["coverage"].(map[string]interface{}); ok {
+					cov["uncontrolled_gc_stress"] = map[string]interface{}{
+						"what":      "supplementary probe outside the deterministic simulation: operation sequence from the seed, collector schedule NOT controlled (GOGC=1, churn goroutines); see DESIGN.md C14",
+						"processes": *procs, "seconds_each": *seconds, "outcomes": res, "corruptions": bad,
+					}
+					if bad > 0 {
+						if n, ok := ev["violations"].(float64); ok {
+							ev["violations"] = int(n) + 1
+						}
+					}
+					b, _ = json.MarshalIndent(ev, "", " ")
+					os.WriteFile(*evidence, b, 0o644)
+				}
+			}
+		}
+	}
+	fmt.Printf("C14 gc-stress probe: %d processes x %ds, %d with corruption\n", *procs, *seconds, bad)
+	return exit
+}
+
+func replayC14(path string, quiet bool) int {
+	b, err := os.ReadFile(path)
+	if err != nil {
+		return 2
+	}
+	var f struct {
+		Seed    uint64 `json:"seed"`
+		Seconds int    `json:"seconds"`
+		Procs   int    `json:"procs"`
+	}
+	if json.Unmarshal(b, &f) != nil {
+		return 2
+	}
+	// statistical reproduction: up to 3 batches
+	for try := 0; try < 3; try++ {
+		rc := specialC14([]string{"-seed", fmt.Sprint(f.Seed), "-seconds", fmt.Sprint(f.Seconds), "-procs", fmt.Sprint(f.Procs), "-out", os.TempDir()})
+		if rc == 1 {
+			fmt.Printf("VIOLATION property=C14 replay=%s\n", path)
+			return 1
+		}
+	}
+	fmt.Println("replay: no corruption in 3 batches")
+	return 0
+}
